@@ -148,3 +148,42 @@ Proof.
     rewrite N.mod_small in Hmod by exact H.
     destruct lastp; [reflexivity | unfold nlen in Hmod; cbn [length] in Hmod; lia].
 Qed.
+
+(* the host loop only looks at the responder's answers *)
+Lemma data_stage_ext : forall r1 r2 : N -> response, (forall sp, r1 sp = r2 sp) ->
+  forall fuel mps wlen sp got, data_stage fuel r1 mps wlen sp got = data_stage fuel r2 mps wlen sp got.
+Proof.
+  intros r1 r2 H. induction fuel as [|fuel IH]; intros mps wlen sp got; [reflexivity|].
+  cbn [data_stage]. rewrite H. destruct (r2 sp) as [|p]; [reflexivity|].
+  destruct ((nlen p <? mps) || (wlen <=? got + nlen p)); [reflexivity|]. rewrite IH. reflexivity.
+Qed.
+
+Lemma offsets_ext : forall r1 r2 : N -> response, (forall sp, r1 sp = r2 sp) ->
+  forall fuel mps wlen sp got, offsets fuel r1 mps wlen sp got = offsets fuel r2 mps wlen sp got.
+Proof.
+  intros r1 r2 H. induction fuel as [|fuel IH]; intros mps wlen sp got; [reflexivity|].
+  cbn [offsets]. rewrite H. destruct (r2 sp) as [|p]; [reflexivity|].
+  destruct ((nlen p <? mps) || (wlen <=? got + nlen p)); [reflexivity|]. rewrite IH. reflexivity.
+Qed.
+
+Lemma respond_present : forall c mps value wlen d, find_desc c (v_type value) (v_index value) = Some d ->
+  forall sp, respond c mps value wlen sp = RData (firstn (N.to_nat (N.min mps (wlen - sp))) (skipn (N.to_nat sp) d)).
+Proof. intros c mps value wlen d H sp. unfold respond. rewrite H. reflexivity. Qed.
+
+Theorem data_stage_respond : forall c mps value wlen d,
+  find_desc c (v_type value) (v_index value) = Some d -> 1 <= mps -> 1 <= wlen -> nlen d < 2048 ->
+  exists pkts, data_stage (S (length d)) (respond c mps value wlen) mps wlen 0 0 = (pkts, false) /\ stage_ok d mps wlen pkts.
+Proof.
+  intros c mps value wlen d Hf Hm Hw HL.
+  destruct (data_stage_present d mps wlen Hm Hw HL) as (pk & E & Hok). exists pk. split; [|exact Hok].
+  rewrite <- E. apply data_stage_ext. apply respond_present. exact Hf.
+Qed.
+
+Theorem offsets_respond_legal : forall c mps value wlen d fuel,
+  find_desc c (v_type value) (v_index value) = Some d -> 1 <= mps -> 1 <= wlen -> nlen d < 2048 ->
+  Forall (fun o => o < wlen /\ o <= nlen d) (offsets fuel (respond c mps value wlen) mps wlen 0 0).
+Proof.
+  intros c mps value wlen d fuel Hf Hm Hw HL.
+  rewrite (offsets_ext _ _ (respond_present c mps value wlen d Hf)).
+  apply (offsets_legal d mps wlen Hm Hw HL); lia.
+Qed.
